@@ -128,7 +128,7 @@ def value_diff(v, o, version, p, here):
 
 
 # ---- selector paths (shared by C03 and C08) ---------------------------------------------------------------
-SELECTOR_STEP = re.compile(r"^[a-z0-9_-]{1,250}$")
+SELECTOR_STEP = re.compile(r"^[a-z0-9_-]{1,250}\Z")
 
 
 def selector_paths(v):
